@@ -8,7 +8,7 @@ use std::sync::atomic::{AtomicU64, Ordering};
 use std::sync::Mutex;
 use std::time::{Duration, Instant};
 use serde_json::{json, Value};
-use crate::common::{Counters, RunOut, Violation, HARNESS_PANIC};
+use crate::common::{Counters, RunOut, Violation};
 use crate::exec::panic_message;
 use crate::scenario::{RunKind, Scenario, Tier};
 use crate::tape::{self, Tape};
@@ -132,19 +132,24 @@ pub fn kind_of(s: &dyn Scenario, tier: Tier, idx: u64) -> RunKind {
     }
 }
 
-/// Runs once, converting escaped panics into violations.
+/// Runs once. Scenarios catch panics of the code under test themselves (so
+/// that the tape survives); whatever still escapes, and every harness failure
+/// recorded by the panic hook (also inside tokio tasks), is a harness error.
 pub fn run_guarded(s: &dyn Scenario, kind: RunKind, tier: Tier, tape: Tape, log: bool) -> Result<(RunOut, Vec<u64>), String> {
-    match catch_unwind(AssertUnwindSafe(|| s.run(kind, tier, tape, log))) {
-        Ok((out, tape)) => Ok((out, tape.rec)),
+    let _ = crate::exec::take_harness_fails();
+    let _ = crate::exec::take_panics();
+    let res = catch_unwind(AssertUnwindSafe(|| s.run(kind, tier, tape, log)));
+    let fails = crate::exec::take_harness_fails();
+    match res {
+        Ok((out, tape)) => {
+            if let Some(f) = fails.first() {
+                return Err(format!("harness failure inside the run: {}", f));
+            }
+            Ok((out, tape.rec))
+        }
         Err(p) => {
             let msg = panic_message(&p);
-            if msg.starts_with(HARNESS_PANIC) {
-                Err(msg)
-            } else {
-                let mut out = RunOut::default();
-                out.violation = Some(Violation::new("panic", "run", format!("panic escaped the run: {}", msg)));
-                Ok((out, Vec::new()))
-            }
+            Err(format!("panic escaped the run: {} {}", msg, fails.first().cloned().unwrap_or_default()))
         }
     }
 }
@@ -215,14 +220,19 @@ pub fn check(s: &dyn Scenario, opts: &CheckOpts) -> i32 {
                         }
                         Ok((out, rec)) => {
                             local.runs += 1;
-                            local.evaluations += out.evaluations.max(1);
+                            local.evaluations += out.evaluations;
                             local.sim_ms += out.sim_ms;
                             local.counters.merge(&out.counters);
                             if out.nontrivial {
                                 local.nontrivial_runs += 1;
-                                bitmap.insert(out.sig);
-                                for sg in &out.sub_sigs {
-                                    bitmap.insert(*sg);
+                                // one signature per run, or - when the run
+                                // enumerates sub-cases - one per sub-case
+                                if out.sub_sigs.is_empty() {
+                                    bitmap.insert(out.sig);
+                                } else {
+                                    for sg in &out.sub_sigs {
+                                        bitmap.insert(*sg);
+                                    }
                                 }
                             }
                             if let Some(v) = out.violation {
